@@ -359,10 +359,14 @@ def handleSpecC01 (args : List Sexp) (v : Variant := {}) : Sexp :=
              -- C02's assumptions) and the process does not survive the guard — nothing is compared, the program is counted
              go (k + 1) cmp und (skipped + 1) bad ps (rs.drop 1)
            | .list (.atom "r" :: .atom "ok" :: setup :: vals) =>
-             let impl := vals.map fun v => match v with
+             -- `(fail died)`: the test process did not survive an earlier crash of this program (a crash inside the slot of a
+             -- self-dependent binding cannot be unwound): that state was NOT observed — it is left out, not read as undefined
+             let observed := ((specValues p prop prog v (batchDoc k)).zip vals).filter fun (_, x) =>
+               x != .list [.atom "fail", .atom "died"]
+             let impl := observed.map fun (_, v) => match v with
                | .list (.atom "fail" :: _) => none
                | v => some v
-             let (c, u, b) := compareValues (specValues p prop prog v (batchDoc k)) impl
+             let (c, u, b) := compareValues (observed.map (·.1)) impl
              let bad1 := match setupFailure p prop prog setup v (batchDoc k) with
                | some f => bad ++ [.list [.atom "p", .ofNat k, .atom "setup-crash", f]]
                | none => bad
